@@ -47,13 +47,39 @@ DISK_NAMES = ["sda", "sda1", "sdb", "sdb2", "nvme0n1", "nvme0n1p1", "nvme0n1p2",
 GRAPH = "".join(chr(c) for c in range(33, 127))
 
 
+def _enc(s):
+    return s.encode("utf-8", "surrogateescape")
+
+
+def _b2s(b):
+    """bytes -> the str Python shows for them (cases carry names as such strs; JSON keeps lone surrogates)"""
+    return bytes(b).decode("utf-8", "surrogateescape")
+
+
+# names the kernel can hold that are not plain ASCII: UTF-8, undecodable bytes, str blanks INSIDE the name
+NIC_BYTES = [_b2s(x) for x in (b"wl\xc3\xa9\xe2\x82\xac0", b"e\xff1", b"a\x1fb", b"\xe2\x82", b"\x80", b"eth\xc2\x85x", b"\xf0\x9f\x98\x80",
+                               b"a\xe2\x80\x83b", b"\xed\xa0\x80", b"n\x01\x7f", b"\xc0\xaf", b"q\xf4\x90\x80\x80", b"\xe3\x81\x82wlan",
+                               b"x\x0by", b"x\x1cy")]
+# names the kernel accepts (dev_valid_name) whose str begins or ends with a str blank: finding class
+NIC_EDGE = [_b2s(x) for x in (b"eth0\x1f", b"\x1ceth0", b"eth0\xc2\x85", b"\xe2\x80\x83wl", b"wl\xe3\x80\x80", b"a\x1e", b"\x1d",
+                              b"v\xe1\x9a\x80", b"p\xe2\x80\xa8")]
+DISK_BYTES = [_b2s(x) for x in (b"sd\xc3\xa9", b"d\xff", b"\xe2\x82\xac0", b"md/\xf0\x9f\x98\x80", b"x\x80/y", b"\xed\xa0\x80")]
+_BLANKS = set([9, 10, 11, 12, 13, 28, 29, 30, 31, 32, 133, 160, 5760] + list(range(8192, 8203)) + [8232, 8233, 8239, 8287, 12288])
+
+
+def _edge_blank(name):
+    return bool(name) and (ord(name[0]) in _BLANKS or ord(name[-1]) in _BLANKS)
+
+
 def _val(rng):
     if rng.random() < 0.25:
         return rng.randint(0, 10 ** rng.randint(1, 20))
     return rng.choice(VALS)
 
 
-def _rname(rng, pool, forbid=""):
+def _rname(rng, pool, forbid="", extra=None):
+    if extra and rng.random() < 0.25:
+        return rng.choice(extra)
     if rng.random() < 0.75:
         return rng.choice(pool)
     n = rng.randint(1, 15)
@@ -63,10 +89,10 @@ def _rname(rng, pool, forbid=""):
     return s if s not in (".", "..") else "dot"
 
 
-def _uniq(rng, pool, n, forbid=""):
+def _uniq(rng, pool, n, forbid="", extra=None):
     out = []
     while len(out) < n:
-        s = _rname(rng, pool, forbid)
+        s = _rname(rng, pool, forbid, extra)
         if s not in out:
             out.append(s)
     return out
@@ -113,7 +139,7 @@ LAYS = ["f14", "f18", "f20", "f22", "l24", "p7"]
 def _disk_file(rng, allow24, n=None, mode=None):
     n = rng.choice([0, 1, 1, 2, 3, 4, 6, 8, 12]) if n is None else n
     mode = mode or rng.choice(["rand", "rand", "distinct"])
-    names = _uniq(rng, DISK_NAMES, n)
+    names = _uniq(rng, DISK_NAMES, n, extra=DISK_BYTES if rng.random() < 0.4 else None)
     era = rng.choice(["new", "new", "mixed", "26", "24"] if allow24 else ["new", "new", "mixed", "26"])
     devs = []
     for k, nm in enumerate(names):
@@ -144,7 +170,7 @@ def _sysname(n):
 
 def _fs_safe(devs):
     """whole-disk names must be usable as directory names"""
-    return all(_sysname(d["name"]) not in (".", "..") and len(_sysname(d["name"]).encode()) < 200 for d in devs)
+    return all(_sysname(d["name"]) not in (".", "..") and len(_enc(_sysname(d["name"]))) < 200 and "\x00" not in d["name"] for d in devs)
 
 
 # ------------------------------------------------------------------ python-side printers (for the malformed stream only)
@@ -182,7 +208,8 @@ def _mutate_line(rng, line):
         if toks[i] == "١":
             toks[i] = "9a"
     elif k < 0.65:
-        toks[i] = toks[i] + rng.choice([":", "\t", "\x0b", "\x0c"])
+        toks[i] = toks[i] + rng.choice([":", "\t", "\x0b", "\x0c", "\r", "\x1c", "\x1f", "\x85", "\u2003", "\xe9", "\udcff", "\u0661",
+                                        "\r\n", "\xa0"])
     elif k < 0.75:
         return line.replace(":", rng.choice(["", " ", "::", ": :"]), 1)
     elif k < 0.85:
@@ -219,13 +246,47 @@ def gen_cases(rng, tier):
                     for w1, w2 in ((True, False), (True, True), (False, False)):
                         add({"kind": "disk", "cls": "disk-layout-pair", "others": [],
                              "devs": [_disk(rng, "sda", l1, w1, "distinct", 0), _disk(rng, "sda1", l2, w2, "distinct", 1)]})
+    # ---- names: every pool name alone (ASCII, bytes, edge-blank), both formats
+    if tier != "search":
+        for nm in NIC_NAMES + NIC_BYTES + NIC_EDGE:
+            cls = "net-name-edgeblank" if _edge_blank(nm) else "net-name"
+            add({"kind": "net", "cls": cls, "sp": nm != "eth0:", "ifs": [{"name": nm, "c": [1000 + k for k in range(16)]}]})
+        for nm in DISK_NAMES + DISK_BYTES:
+            if _sysname(nm) in (".", ".."):
+                continue
+            add({"kind": "disk", "cls": "disk-name", "others": [],
+                 "devs": [_disk(rng, nm, "f20", True, "distinct"), _disk(rng, "p" + nm, "f14", False, "distinct", 1)]})
+        # one name per str blank, at the end of the name (finding class) and inside it (theorem class)
+        for cp in sorted(_BLANKS - {10, 13, 32, 9, 11, 12, 160}):
+            for nm in ("ab" + chr(cp), "a" + chr(cp) + "b"):
+                add({"kind": "net", "cls": "net-name-edgeblank" if _edge_blank(nm) else "net-name-innerblank", "sp": True,
+                     "ifs": [{"name": nm, "c": [7 + k for k in range(16)]}]})
+        add({"kind": "uws", "cls": "text-isspace-table"})
+    # ---- the text layer against CPython (decode, universal newlines, split, strip)
+    frag = [b"a", b"1", b" ", b"\t", b"\n", b"\r", b"\r\n", b"\x0b", b"\x0c", b"\x1c", b"\x1d", b"\x1e", b"\x1f", b":", b"\x7f", b"\x00",
+            b"\xc2\x85", b"\xc2\xa0", b"\xc2", b"\x85", b"\xa0", b"\xe1\x9a\x80", b"\xe2\x80\x83", b"\xe2\x80", b"\xe2\x80\xa8",
+            b"\xe2\x80\xa9", b"\xe2\x80\xaf", b"\xe2\x81\x9f", b"\xe3\x80\x80", b"\xe1\xa0\x8e", b"\xe2\x80\x8b", b"\xef\xbb\xbf",
+            b"\xed\xa0\x80", b"\xed\x9f\xbf", b"\xe0\x80\x80", b"\xe0\xa0\x80", b"\xf0\x90\x80\x80", b"\xf0\x8f\xbf\xbf",
+            b"\xf4\x8f\xbf\xbf", b"\xf4\x90\x80\x80", b"\xf5", b"\xc0\x80", b"\xc1\xbf", b"\xdf\xbf", b"\xff", b"\xfe", b"\xf0\x9f\x98"]
+    for _ in range(60 * N):
+        if rng.random() < 0.7:
+            b = b"".join(rng.choice(frag) for _ in range(rng.randint(0, 12)))
+        else:
+            b = bytes(rng.choice([rng.randrange(256), rng.choice([0x80, 0xbf, 0xc2, 0xe0, 0xed, 0xf0, 0xf4, 0x20, 0x0d])])
+                      for _ in range(rng.randint(1, 10)))
+        add({"kind": "dec", "cls": "text-layer" if b else "trivial", "content": b.hex()})
     # ---- /proc/net/dev
     for _ in range(90 * N):
         n = rng.choice([0, 1, 1, 2, 3, 5, 8, 12])
         mode = rng.choice(["rand", "rand", "distinct", "zeros"])
-        ifs = [_nic(rng, nm, mode) for nm in _uniq(rng, NIC_NAMES, n)]
+        r = rng.random()
+        extra = NIC_BYTES if r < 0.35 else (NIC_BYTES + NIC_EDGE) if r < 0.45 else None
+        ifs = [_nic(rng, nm, mode) for nm in _uniq(rng, NIC_NAMES, n, extra=extra)]
         sp = rng.random() < 0.8
-        cls = "trivial" if n == 0 else "net-" + mode + ("" if sp else "-oldfmt") + ("-many" if n >= 5 else "")
+        nonascii = any(any(ord(ch) > 126 or ord(ch) < 33 for ch in i["name"]) for i in ifs)
+        edge = any(_edge_blank(i["name"]) for i in ifs)
+        cls = "trivial" if n == 0 else "net-" + mode + ("" if sp else "-oldfmt") + ("-many" if n >= 5 else "") + (
+            "-edgeblank" if edge else "-bytes" if nonascii else "")
         add({"kind": "net", "cls": cls, "sp": sp, "ifs": ifs})
     add({"kind": "net", "cls": "trivial", "sp": True, "ifs": []})
     for _ in range(50 * N):
@@ -247,7 +308,7 @@ def gen_cases(rng, tier):
             lines = lines[:-1] if rng.random() < 0.5 else lines   # no trailing newline / unchanged
             if lines and rng.random() < 0.5:
                 lines[-1] = lines[-1].rstrip()
-        add({"kind": "netraw", "cls": "net-malformed", "content": "\n".join(lines).encode().hex()})
+        add({"kind": "netraw", "cls": "net-malformed", "content": _enc("\n".join(lines)).hex()})
     # ---- /proc/diskstats
     for _ in range(120 * N):
         devs, others = _disk_file(rng, allow24=True)
@@ -274,11 +335,11 @@ def gen_cases(rng, tier):
             lines.append(lines[rng.randrange(len(lines))])
         text = "\n".join(lines) + ("\n" if rng.random() < 0.8 else "")
         listing = sorted({_sysname(d["name"]) for d in devs if d["whole"]} | set(others))
-        add({"kind": "diskraw", "cls": "disk-malformed", "content": text.encode().hex(), "listing": listing})
+        add({"kind": "diskraw", "cls": "disk-malformed", "content": _enc(text).hex(), "listing": listing})
     # ---- /sys/block fallback
     for _ in range(40 * N):
         nd = rng.choice([0, 1, 1, 2, 3])
-        names = _uniq(rng, [n for n in DISK_NAMES if "/" not in n] + ["cciss!c0d1"], nd * 3, forbid="/")
+        names = _uniq(rng, [n for n in DISK_NAMES + DISK_BYTES if "/" not in n] + ["cciss!c0d1"], nd * 3, forbid="/")
         disks = []
         for i in range(nd):
             parts = [{"name": names[nd + 2 * i + j], "f": [_val(rng) for _ in range(11)], "extra": []}
@@ -289,7 +350,7 @@ def gen_cases(rng, tier):
     for _ in range(12 * N):
         content = rng.choice(["", "\n", "1 2 3\n", "1 2 3 4 5 6 7 8 9\n", "1 2 3 4 5 6 7 8 9 x\n", "1 2 3 4 5 6 7 8 9 10\n",
                               "  1 2 3 4 5 6 7 8 9 10 x y z", "1 2 3 4 x 6 7 8 9 10 11\n", "1\t2\n3 4 5 6 7 8 9 10 11 12\n"])
-        add({"kind": "sysraw", "cls": "sysfs-malformed", "ents": [["sda", content.encode().hex()]], "listing": ["sda"]})
+        add({"kind": "sysraw", "cls": "sysfs-malformed", "ents": [["sda", _enc(content).hex()]], "listing": ["sda"]})
     add({"kind": "nosource", "cls": "nosource"})
     # ---- disk_usage
     for _ in range(80 * N):
@@ -367,6 +428,10 @@ def coq_term(case):
                                       G.lst([G.by(o) for o in case["listing"]]))
     if k == "nosource":
         return "run_nosource"
+    if k == "dec":
+        return "run_dec %s" % G.by(bytes.fromhex(case["content"]))
+    if k == "uws":
+        return "run_uws_table"
     if k == "usage":
         return "run_usage %d %d %d %d %d" % (case.get("bsize", case["frsize"]), case["frsize"], case["blocks"], case["bfree"],
                                                case["bavail"])
@@ -376,7 +441,7 @@ def coq_term(case):
 def _sort_dict(v):
     """sort the items of a Val(Dict ...) by key (walk order of a directory tree is not fixed)"""
     if isinstance(v, dict) and v.get("t") == "Val" and isinstance(v["a"][0], dict) and v["a"][0].get("t") == "Dict":
-        return T("Val", T("Dict", sorted(v["a"][0]["a"][0], key=lambda kv: kv[0]["b"])))
+        return T("Val", T("Dict", sorted(v["a"][0]["a"][0], key=lambda kv: kv[0])))
     return v
 
 
@@ -384,12 +449,14 @@ def coq_struct(case, raw):
     k = case["kind"]
     if k == "net":
         spec = None if raw[3] is None else [raw[3], raw[4]]
-        return {"printed": raw[0], "model": [raw[1], raw[2]], "spec": spec}
+        return {"printed": raw[0], "model": [raw[1], raw[2]], "spec": spec, "in_domain": raw[5], "dev_valid": raw[6]}
+    if k in ("dec", "uws"):
+        return {"model": raw, "spec": None}
     if k in ("netraw", "diskraw", "nosource"):
         return {"model": raw, "spec": None}
     if k == "disk":
         spec = None if raw[4] is None else [raw[4], raw[5]]
-        return {"printed": raw[0], "listing": raw[1], "model": [raw[2], raw[3]], "spec": spec, "no_l24": raw[6]}
+        return {"printed": raw[0], "listing": raw[1], "model": [raw[2], raw[3]], "spec": spec, "no_l24": raw[6], "agrees": raw[7]}
     if k == "sys":
         spec = None if raw[3] is None else [_sort_dict(raw[3]), raw[4]]
         return {"printed": raw[0], "model": [_sort_dict(raw[1]), raw[2]], "spec": spec}
@@ -404,6 +471,9 @@ def finding_key(case, coq):
     # known finding: a 15-field (Linux 2.4) diskstats line is read one column off
     if case["kind"] == "disk" and any(d["lay"] == "l24" for d in case["devs"]):
         return "diskstats-2.4-layout"
+    # finding: an interface name whose str begins or ends with a str blank (0x1c-0x1f, U+0085, U+2003 ...) is stripped
+    if case["kind"] == "net" and any(_edge_blank(i["name"]) for i in case["ifs"]):
+        return "netdev-name-edge-blank"
     return None
 
 
@@ -431,8 +501,10 @@ def _pct_ok(impl_pct, exact):
 
 
 def _usage_eq(impl, ref):
-    return (isinstance(impl, list) and len(impl) == 4 and impl[:3] == ref[:3] and isinstance(impl[3], dict)
-            and "f" in impl[3] and _pct_ok(impl[3]["f"], ref[3]))
+    """both: [[B(field name), value] x 4]; the percent value is {"f": repr} on the implementation side, [n, d] / None in Coq"""
+    return (isinstance(impl, list) and len(impl) == 4 and len(ref) == 4 and impl[:3] == ref[:3]
+            and impl[3][0] == ref[3][0] and isinstance(impl[3][1], dict) and "f" in impl[3][1]
+            and _pct_ok(impl[3][1]["f"], ref[3][1]))
 
 
 def judge(case, coq, impl):
@@ -452,6 +524,11 @@ def judge(case, coq, impl):
 
 # ------------------------------------------------------------------ implementation side
 _st = {}
+
+
+def gen_tables(impl_dir, out_dir):
+    from props import _c09_tables
+    return _c09_tables.gen_tables(impl_dir, out_dir)
 
 
 def impl_setup(env):
@@ -475,7 +552,7 @@ def _front(r):
     if r is None:
         return None
     if isinstance(r, dict):
-        return T("Dict", [[B(os.fsencode(k)), _nt(v)] for k, v in r.items()])
+        return T("Dict", [[[ord(ch) for ch in k], _nt(v)] for k, v in r.items()])
     return T("Tuple", _nt(r))
 
 
@@ -518,6 +595,8 @@ def _mk_block(listing):
 def impl_run(case, coq, env):
     import psutil
     k = case["kind"]
+    if k in ("dec", "uws"):
+        return _text_run(case, env)
     if k == "usage":
         import types
         st = types.SimpleNamespace(f_frsize=case["frsize"], f_blocks=case["blocks"], f_bfree=case["bfree"], f_bavail=case["bavail"],
@@ -528,8 +607,8 @@ def impl_run(case, coq, env):
             u = psutil.disk_usage("/some/mount point")
         finally:
             os.statvfs = real
-        assert list(u._asdict().keys()) == ["total", "used", "free", "percent"] and tuple(u) == tuple(u._asdict().values())
-        return [u.total, u.used, u.free, {"f": repr(float(u.percent))}]
+        assert tuple(u) == tuple(u._asdict().values())
+        return [[B(k), ({"f": repr(float(v))} if isinstance(v, float) else v)] for k, v in u._asdict().items()]
     root = _reset_tree(env)
     net = lambda per, nw: psutil.net_io_counters(pernic=per, nowrap=nw)        # noqa: E731
     disk = lambda per, nw: psutil.disk_io_counters(perdisk=per, nowrap=nw)     # noqa: E731
@@ -570,6 +649,26 @@ def impl_run(case, coq, env):
     if k == "nosource":
         return _both(disk, psutil.disk_io_counters.cache_clear)
     raise ValueError(k)
+
+
+def _text_run(case, env):
+    """CPython's own text layer: the decoding and the str methods psutil relies on"""
+    import io
+    k = case["kind"]
+    cps = lambda s: [ord(ch) for ch in s]    # noqa: E731
+    if k == "uws":
+        return [c for c in range(0x110000) if chr(c).isspace()]
+    b = bytes.fromhex(case["content"])
+    s = b.decode("utf-8", "surrogateescape")
+    path = os.path.join(env["work"], "textfile")
+    with open(path, "wb") as f:
+        f.write(b)
+    from psutil._common import open_text
+    with open_text(path) as f:
+        read = f.read()
+    with open_text(path) as f:
+        assert "".join(f.readlines()) == read
+    return [cps(s), cps(read), [cps(t) for t in s.split()], cps(s.strip())]
 
 
 MANIFEST = {
